@@ -49,7 +49,9 @@ func c13Run(t *testing.T, r *vRand, mb, nev int, focus bool, scenario int) *cfsC
 			c.forceInflight = false
 		}
 		c.completeAll()
-		c.se.readAll("a", c.addOp)
+		if !c.dead {
+			c.runOp(func() { c.se.readAll("a", c.addOp) })
+		}
 	}
 	for i := 0; i < nev; i++ {
 		k := r.Intn(100)
